@@ -333,12 +333,102 @@ func c01ManyBridges(emit func(build L1Builder), tier int) {
 	}
 }
 
+// scripted: three bridges of one proposer with DIFFERENT output logs - different roots at the same
+// index, different lengths (3, 3, 2 outputs), different finalization periods.  Output i of bridge
+// k commits to honest leaves of bridge k and, when i is another bridge's id, to leaves carrying
+// bridge id i.  Claims: honest ones on bridge k against its own output i (also i != k; must be
+// paid once final by k's period) and claims on bridge b against index k with the leaf, proof
+// and root that only bridge k's output number b commits to (must be refused).
+func c01ForeignScript(sc *L1Scenario, tier int) {
+	e, r := sc.Env, sc.R
+	base := []int64{sec, 7 * sec, 2*sec + 500000000}
+	off := r.Intn(3)
+	periods := []int64{base[off], base[(off+1)%3], base[(off+2)%3]}
+	var bs []uint64
+	for k := 0; k < 3; k++ {
+		if b, ok := sc.CreateStd(1, uint64(2+k), periods[k]); ok {
+			bs = append(bs, b)
+		}
+	}
+	if len(bs) < 3 {
+		return
+	}
+	for _, b := range bs {
+		sc.fundEscrow(b, int64(400+50*int(b)))
+		sc.NextWSeq[b] = 1
+	}
+	isBridge := func(x uint64) bool { return idxU(bs, x) >= 0 }
+	mkW := func(b uint64) Withdrawal {
+		w := Withdrawal{Bridge: b, Seq: sc.NextWSeq[b], From: "l2user", To: e.User(uint64(1 + r.Intn(7))).Str, Denom: sc.Denoms[r.Intn(len(sc.Denoms))], Amt: big.NewInt(int64(1 + r.Intn(30)))}
+		sc.NextWSeq[b]++
+		return w
+	}
+	type slot struct {
+		pt      *ProposedTree
+		honest  []int // leaf positions carrying the own bridge id
+		foreign []int // leaf positions carrying the bridge id equal to the output index
+	}
+	outs := map[[2]uint64]*slot{}
+	lens := []uint64{3, 3, 2}
+	for ki, k := range bs {
+		for i := uint64(1); i <= lens[ki]; i++ {
+			s := &slot{}
+			var ws []Withdrawal
+			for q := 0; q < 2; q++ {
+				s.honest = append(s.honest, len(ws))
+				ws = append(ws, mkW(k))
+			}
+			if isBridge(i) && i != k {
+				for q := 0; q < 1+r.Intn(2); q++ {
+					s.foreign = append(s.foreign, len(ws))
+					ws = append(ws, mkW(i))
+				}
+			}
+			if pt, ok := sc.ProposeTree(k, sc.customTree(k, ws)); ok {
+				s.pt = pt
+				outs[[2]uint64{k, i}] = s
+			}
+			if r.Chance(40) {
+				sc.Advance([]int64{sec, 500000000, 2 * sec}[r.Intn(3)])
+			}
+		}
+	}
+	steps := 26
+	if tier == 1 {
+		steps = 50
+	}
+	for n := 0; n < steps; n++ {
+		sub := e.User(uint64(1 + r.Intn(7))).Str
+		k := bs[r.Intn(len(bs))]
+		i := uint64(1 + r.Intn(3))
+		s := outs[[2]uint64{k, i}]
+		switch r.Weighted([]int{18, 38, 30, 8, 6}) {
+		case 0:
+			sc.Advance([]int64{sec, 2 * sec, 7 * sec, 500000000}[r.Intn(4)])
+		case 1: // honest claim on bridge k against its own output i (i may differ from k)
+			if s != nil {
+				sc.ClaimAt(s.pt, s.honest[r.Intn(len(s.honest))], k, i, sub)
+			}
+		case 2: // claim on bridge i against index k with what only bridge k's output number i commits to
+			if s != nil && len(s.foreign) > 0 {
+				sc.ClaimAt(s.pt, s.foreign[r.Intn(len(s.foreign))], i, k, sub)
+			}
+		case 3: // an honest leaf of (k, i) submitted to the transposed position (bridge i, index k)
+			if s != nil && isBridge(i) {
+				sc.ClaimAt(s.pt, s.honest[r.Intn(len(s.honest))], i, k, sub)
+			}
+		case 4: // donation
+			sc.do(L1Op{Kind: "send", FromID: uint64(1 + r.Intn(6)), ToID: EscrowBase + k, Denom: sc.Denoms[r.Intn(len(sc.Denoms))], Amt: big.NewInt(int64(1 + r.Intn(60)))})
+		}
+	}
+}
+
 func genC01(seed uint64, tier, outdir string) *Report {
 	w := DefaultL1Weights
 	w.Create, w.Deposit, w.Propose, w.Delete, w.Claim, w.Send, w.Params = 8, 22, 16, 12, 26, 10, 4
 	return runMoneyStream(MoneyStream{Prop: "C01", Weights: w, NRandom: [2]int{18, 200}, Len: [2]int{60, 140},
-		Scripts: []func(*L1Scenario, int){c01Script}, NScript: [2]int{18, 200},
-		Monitors: []L1Monitor{c01Monitor, provenLeafMonitor("C01"), doublePayMonitor("C01")}, Extra: c01ManyBridges,
+		Scripts: []func(*L1Scenario, int){c01Script, c01ForeignScript}, NScript: [2]int{12, 130},
+		Monitors: []L1Monitor{c01Monitor, provenLeafMonitor("C01"), doublePayMonitor("C01"), outputLogMonitor("C01")}, Extra: c01ManyBridges,
 		Prep: moneyPrep, Spice: (*L1Scenario).variantStep, SpicePct: 10,
 		Rule: "a case is one multi-bridge L1 history on a fresh instance (scripted cross-bridge replay scenario plus random tail, or fully random); distinct by hash of the op list; non-trivial = at least one finalization accepted and at least one rejected"},
 		seed, tier, outdir)
